@@ -43,7 +43,8 @@ ASSUMPTIONS = [
     "so hosts are either DNS servers or DNS clients and the service exchange runs for client->server pairs",
     "flush_arp calls the public ARP.clear() on every node (the state routers are in after an episode reset)",
     "exhaustive route tables are assembled from RouteEntry objects assigned to RouteTable.routes (public field) for speed; "
-    "the random part goes through add_route / set_default_route_next_hop_ip_address",
+    "the random part goes through add_route / set_default_route_next_hop_ip_address, or through Router / Firewall / "
+    "WirelessRouter.from_config with `routes:` / `default_route:` entries (two thirds of the random tables)",
     "delivery is not asserted on the switch ring (a layer-2 loop without spanning tree); only the monitors apply there",
     "sys.setrecursionlimit is raised inside the check because the observe-only wrappers add three Python frames per hop",
 ]
@@ -123,20 +124,46 @@ def _fmt(e):
     return f"{e.address}/{e.subnet_mask} via {e.next_hop_ip_address} metric {e.metric}"
 
 
+def _table_from_config(via: str, routes, default):
+    from primaite.simulator.network.airspace import AirSpace
+    from primaite.simulator.network.hardware.nodes.network.firewall import Firewall
+    from primaite.simulator.network.hardware.nodes.network.router import Router
+    from primaite.simulator.network.hardware.nodes.network.wireless_router import WirelessRouter
+
+    cfg = {"hostname": "t", "start_up_duration": 0, "shut_down_duration": 0,
+           "routes": [{"address": a, "subnet_mask": mask_str(p), "next_hop_ip_address": nh, "metric": m}
+                      for a, p, m, nh in routes]}
+    if default:
+        cfg["default_route"] = {"next_hop_ip_address": default}
+    if via == "router":
+        node = Router.from_config({"type": "router", "num_ports": 2, **cfg})
+    elif via == "firewall":
+        node = Firewall.from_config({"type": "firewall", **cfg})
+    elif via == "wireless-router":
+        node = WirelessRouter.from_config({"type": "wireless-router", **cfg}, airspace=AirSpace())
+    else:
+        raise ValueError(via)
+    return node.route_table
+
+
 def run_routes(case: Dict) -> CaseResult:
     """One explicit table, built through the public add_route API."""
     res = CaseResult()
     T = _rt_tools()
-    rt = T["RouteTable"](sys_log=T["SysLog"]("c08"))
-    ref_routes = []
+    via = case.get("via", "api")
+    ref_routes = [(ip2int(a), p, float(m)) for a, p, m, _nh in case["routes"]]
     try:
-        for a, p, m, nh in case["routes"]:
-            rt.add_route(address=a, subnet_mask=mask_str(p), next_hop_ip_address=nh, metric=float(m))
-            ref_routes.append((ip2int(a), p, float(m)))
-        if case.get("default"):
-            rt.set_default_route_next_hop_ip_address(case["default"])
+        if via == "api":
+            rt = T["RouteTable"](sys_log=T["SysLog"]("c08"))
+            for a, p, m, nh in case["routes"]:
+                rt.add_route(address=a, subnet_mask=mask_str(p), next_hop_ip_address=nh, metric=float(m))
+            if case.get("default"):
+                rt.set_default_route_next_hop_ip_address(case["default"])
+        else:
+            # the table of a routing device built from its scenario entry (`routes:` / `default_route:` keys)
+            rt = _table_from_config(via, case["routes"], case.get("default"))
     except Exception as e:
-        res.violate(f"raise:add_route:{exc_sig(e)}", exc_msg(e))
+        res.violate(f"raise:add_route:{via}:{exc_sig(e)}", exc_msg(e))
         return res
     entries = list(rt.routes)
     if len(entries) != len(ref_routes):
@@ -144,10 +171,10 @@ def run_routes(case: Dict) -> CaseResult:
         return res
     multi = False
     for dst in case["dsts"]:
-        if _check_lookup(rt, entries, ref_routes, bool(case.get("default")), dst, res, "table") >= 2:
+        if _check_lookup(rt, entries, ref_routes, bool(case.get("default")), dst, res, f"table built via {via}") >= 2:
             multi = True
     res.nontrivial = multi
-    res.label("routes:random", f"routes:len{len(ref_routes)}")
+    res.label("routes:random", f"routes:len{len(ref_routes)}", f"routes:via:{via}")
     if multi:
         res.label("routes:multi-match")
     return res
@@ -284,6 +311,26 @@ def _foreign_nic_entry(net, a: str, dst_ip: str) -> bool:
     return ni is not None and dst not in ni.ip_network
 
 
+def _router_wrong_mac(net, ref, ips) -> bool:
+    """some routing device maps one of the addresses, which lies on a network attached to it, to a MAC address that is not
+    its owner's (diagnostic used in a signature only)"""
+    from ipaddress import IPv4Address
+
+    owner_mac = {}
+    for (n, p_), (ip, _pl) in ref.ifs.items():
+        owner_mac[int2ip(ip)] = str(net.get_node_by_hostname(n).network_interface[p_].mac_address).lower()
+    for r in ref.l3:
+        arp = net.get_node_by_hostname(r).software_manager.software.get("arp")
+        if arp is None:
+            continue
+        for x in ips:
+            if x in owner_mac and ref.connected_port(r, ip2int(x)) is not None:
+                e = arp.arp.get(IPv4Address(x))
+                if e is not None and str(e.mac_address).lower() != owner_mac[x]:
+                    return True
+    return False
+
+
 def _running(sw) -> bool:
     return sw is not None and sw.operating_state.name == "RUNNING"
 
@@ -400,6 +447,7 @@ def run_topo(case: Dict) -> CaseResult:
                     a_ips = [int2ip(ref.ifs[(a, q)][0]) for q in ref.ports[a]]
                     diag = "arp-entry-on-foreign-nic" if _foreign_nic_entry(net, a, dst_ip) or any(
                         _foreign_nic_entry(net, b, x) for x in a_ips) else (
+                        "router-arp-entry-wrong-mac" if _router_wrong_mac(net, ref, [dst_ip] + a_ips) else
                         "arp-entry-wrong-mac" if _wrong_mac(net, a, b) or _wrong_mac(net, b, a) else "plain")
                     res.violate(f"{k}-fails-though-reachable:{where}:{phase}:{tg}:{diag}",
                                 f"{when}: {a} -> {dst_ip}: reference says request and reply are deliverable "
@@ -412,6 +460,32 @@ def run_topo(case: Dict) -> CaseResult:
                                 f"{when}: {a} -> {dst_ip}: reference fates fwd {sorted(ref.walk(a, ip2int(dst_ip), st_))}"
                                 + (f" rev {sorted(ref.walk(b, ip2int(ref.node[a]['ip']), st_))}" if b else "")
                                 + ", simulator returned True")
+                if expected is True and got and b is not None and family != "ring":
+                    # "via best routes": the routing devices that forwarded the request / the reply are the ones on the
+                    # reference's path (compared only where the reference has a single way and no tied routes)
+                    exp_fwd = ref.path(a, ip2int(dst_ip), st_)
+                    exp_rev = None
+                    a_ip = None
+                    if exp_fwd is not None:
+                        sp = ref.walk_alts(a, ip2int(dst_ip), st_)[0][0]
+                        a_ip = int2ip(ref.ifs[(a, sp)][0])
+                        exp_rev = ref.path(b, ip2int(a_ip), st_)
+                    for _fid, (fdst, routers) in rec.fwd_path.items():
+                        exp = exp_fwd if fdst == dst_ip else (exp_rev if fdst == a_ip else None)
+                        if exp is None or routers == exp:
+                            continue
+                        i = 0
+                        while i < len(exp) and i < len(routers) and exp[i] == routers[i]:
+                            i += 1
+                        at = ref.kind[exp[i - 1]] if i > 0 else "host"
+                        # structural key: did the device that left the path have the destination on an attached network
+                        # (it should have delivered it itself) or did it pick another route than the best one
+                        how = "connected" if i > 0 and ref.connected_port(exp[i - 1], ip2int(fdst)) is not None \
+                            else "routed"
+                        res.violate(f"not-via-best-route:{at}:{how}",
+                                    f"{when}: packet to {fdst} was forwarded by {routers}, best routes lead through {exp}")
+                        break
+                    labels.add("path-compared" if exp_fwd is not None else "path-undecided")
                 if h > 0:
                     routed_exchanges += 1
                 labels.add(f"op:{k}:{phase}")
@@ -495,8 +569,11 @@ def routes_case(draw):
         routes.append([a, p, m, draw(st.sampled_from(NEXT_HOPS))])
     dsts = draw(st.lists(_ip_strategy(), min_size=1, max_size=8))
     dsts += [r[0] for r in routes[:3]]
-    return {"kind": "routes", "routes": routes, "default": draw(st.sampled_from([None, DEFAULT_NH])), "dsts": dsts,
-            "ops": []}
+    via = draw(st.sampled_from(["api", "api", "router", "firewall", "firewall", "wireless-router"]))
+    default = draw(st.sampled_from([None, DEFAULT_NH]))
+    if via == "wireless-router":
+        default = None  # the wireless-router scenario entry has no default_route key (its from_config does not read one)
+    return {"kind": "routes", "routes": routes, "default": default, "dsts": dsts, "via": via, "ops": []}
 
 
 def _blocks(maxlen: int):
